@@ -508,6 +508,64 @@ func runCase(c *scase) (out outcome) {
 		}
 		out.buckets = append(out.buckets, fmt.Sprintf("check/faulty=%d", len(want)))
 		out.nontriv = len(want) > 0
+	case "fault":
+		r, err := setup(c, c.attempts, false)
+		if err != nil {
+			out.err = err
+			return
+		}
+		defer r.close()
+		r.rec.mu.Lock()
+		r.rec.failRound = c.lost
+		r.rec.mu.Unlock()
+		r.cl.setTarget(c.upTo)
+		res, gotNil := "(SyncErr EFailedAll)", false
+		for a := range c.attempts {
+			if lastRound(r.raw) >= c.upTo {
+				res = "SyncOk"
+				break
+			}
+			r.cl.setAttempt(a)
+			nodes := nodesFor(c.attempts[a])
+			serr, cancelled, hung := r.blockingCall(func(ctx context.Context) error {
+				return r.sm.Sync(ctx, beacon.NewRequestInfo(ctx, c.upTo, nodes))
+			})
+			if hung {
+				m.fail("sync-hangs-after-cancel", "Sync did not return after its context was cancelled")
+			}
+			res = classify(serr, cancelled)
+			if serr == nil {
+				gotNil = true
+				break
+			}
+		}
+		obs, after := r.obsTerm(res)
+		out.line = fmt.Sprintf("CFault %s %s %s %s %d %d %s %s", coqBool(w.chained), coqBackend(c.bk),
+			r.validTerm(), r.baseTerm(), c.upTo, c.lost, r.attemptsTerm(), obs)
+		m.checkPuts(r, true)
+		// M: a Sync that reported success left the target round in the store
+		var absent []uint64
+		have := map[uint64]*common.Beacon{}
+		for _, b := range after {
+			have[b.Round] = b
+		}
+		for rd := uint64(1); rd <= c.upTo; rd++ {
+			if b := have[rd]; b == nil || !w.valid(b) {
+				absent = append(absent, rd)
+			}
+		}
+		if gotNil && (have[c.upTo] == nil || lastRound(r.raw) != c.upTo) {
+			m.fail("C10-sync-reports-success-but-target-round-absent", fmt.Sprintf("Sync(upTo=%d) returned nil after the store had failed the Put of round %d once; the store ends at round %d, rounds %v are absent", c.upTo, c.lost, lastRound(r.raw), absent))
+		}
+		// M: one transient failure of the store must not stop the catch-up: honest peers in every
+		// attempt, so the target is reached and every round is there
+		if !gotNil || len(absent) > 0 {
+			what := fmt.Sprintf("the store failed the Put of round %d once (nothing written); after %d Sync attempts with honest peers only the last result is %s, the store ends at round %d (target %d), rounds %v are absent", c.lost, len(c.attempts), res, lastRound(r.raw), c.upTo, absent)
+			m.fail("C10-sync-does-not-recover-from-transient-store-failure", what)
+			m.fail("C05-sync-does-not-recover-from-transient-store-failure", what)
+		}
+		out.buckets = append(out.buckets, "fault/"+res)
+		out.nontriv = true
 	case "checkcorrect":
 		// the check on the real SyncManager, then the correction of exactly what it listed
 		r, err := setup(c, nil, false)
